@@ -42,7 +42,7 @@ def hx(s):
 
 def load_known():
     known = {k["id"]: k for k in vlib.load_known("C07")}
-    p = os.path.join(vlib.VERIF, "notes", "C07.findings.json")
+    p = ""      # only the committed known-findings.json is consulted at run time
     if os.path.exists(p):
         for k in json.load(open(p)):
             if k.get("property") == "C07" and k.get("status") == "known":
